@@ -76,7 +76,7 @@ Definition transform (block : list N) : list N :=
   nz ++ repeat 0 (length r - length nz).
 
 (* ---------- CalculateBlockSize / BuildBlocks ---------- *)
-Definition hop := (N * N)%type.        (* (forward label, return label) *)
+Notation hop := (N * N)%type (only parsing).        (* (forward label, return label) *)
 
 Fixpoint sum_nat (l : list nat) : nat := match l with [] => O | x :: t => (x + sum_nat t)%nat end.
 Definition window (sim : list nat) (w i : nat) : nat := sum_nat (firstn w (skipn i sim)).
